@@ -207,6 +207,13 @@ def gen_ruler_history(rng):
             ops.append(o)
         else:
             other = rng.choice(names)
+            if rng.random() < 0.04:
+                # long requests (batch code paths): many unknown names, the known ones (and duplicates) somewhere inside
+                arg = ["u%d" % i for i in range(rng.choice([63, 64, 65, 70, 130]))]
+                for nm2 in (name, other, name):
+                    arg.insert(rng.randint(0, len(arg)), nm2)
+                ops.append({"op": kind, "names": arg, "ign": True})
+                continue
             arg = rng.choice([name, [name], [name, other], [other, name, rng.choice("abcd")], [], ["zz", name], [name, "zz", other]])
             ops.append({"op": kind, "names": arg, "ign": rng.random() < 0.5})
     return ops
